@@ -9,6 +9,9 @@ def run(tier):
     res = vlib.run_tlc("MC_Merkle", "MC_Merkle_quick.cfg", "C02/mc", workers=8, timeout=900, collect_prints=False)
     vlib.expect_model_ok(res, "Merkle.tla (tree definition used by the verifier)")
     c.add_model("MC_Merkle/quick (definition of root/path the independent verifier implements)", res)
+    res = vlib.run_tlc("Grease", "MC_Grease.cfg", "C02/mc_grease", workers=4, timeout=600, collect_prints=False)
+    vlib.expect_model_ok(res, "Grease.tla (Dichotomy over all 720 tag permutations and the corrupted signature)")
+    c.add_model("Grease (Dichotomy)", res)
     ev, _ = sc.server_stage(c, "bursts,mixed", "bursts")
     sc.sample_round(c, ev, lambda e: e["pathlen"] >= 3 and e["v"] == "I")
     ev2, _ = sc.server_stage(c, "grease", "grease")
